@@ -1182,6 +1182,21 @@ class Literal(Variable[T]):
                 name = type(original_data).__name__
         super().__init__(name, type_, _domain_source_=From(data))
 
+    def _evaluate__(self, sources: Optional[Dict[int, HashedValue]] = None,
+                    yield_when_false: bool = False) -> Iterable[Dict[int, HashedValue]]:
+        parent = self._parent_
+        is_condition = (isinstance(parent, LogicalOperator)
+                        or (isinstance(parent, QueryObjectDescriptor) and parent._child_ is self)
+                        or (isinstance(parent, ForAll) and self is parent.condition))
+        for values in super()._evaluate__(sources, yield_when_false=yield_when_false):
+            if is_condition:
+                # a plain value given where a condition is expected (entity(x, ..., True), or_(c, False)) is that
+                # condition's truth value.
+                self._is_false_ = bool(values[self._id_].value) == self._invert_
+                if self._is_false_ and not yield_when_false:
+                    continue
+            yield values
+
     @property
     def _plot_color_(self) -> ColorLegend:
         if self._plot_color__:
@@ -2121,6 +2136,8 @@ def properties_to_expression_tree(var: CanBehaveLikeAVariable, properties: Dict[
 
 
 def _optimize_or(left: SymbolicExpression, right: SymbolicExpression) -> OR:
+    # a plain value (a bool) given as a condition becomes a literal, as it does for the other operators.
+    left, right = (e if isinstance(e, SymbolicExpression) else Literal(e) for e in (left, right))
     left_vars = left._unique_variables_.filter(lambda v: not isinstance(v.value, Literal))
     right_vars = right._unique_variables_.filter(lambda v: not isinstance(v.value, Literal))
     if left_vars == right_vars:
